@@ -54,17 +54,16 @@ func init() {
 // unicode array and return it back to its caller.
 func reverse(s []byte) []byte {
 	cursorIn := 0
-	inputRunes := []rune(string(s))
 	cursorOut := len(s)
 	output := make([]byte, len(s))
-	for i := 0; i < len(inputRunes); {
-		wid := utf8.RuneLen(inputRunes[i])
-		i++
-		for i < len(inputRunes) {
-			r := inputRunes[i]
+	for cursorIn < len(s) {
+		// width in bytes of this rune as it appears in the input (1 for an
+		// invalid byte), plus any combining marks that follow it
+		_, wid := utf8.DecodeRune(s[cursorIn:])
+		for cursorIn+wid < len(s) {
+			r, size := utf8.DecodeRune(s[cursorIn+wid:])
 			if unicode.Is(unicode.Mn, r) || unicode.Is(unicode.Me, r) || unicode.Is(unicode.Mc, r) {
-				wid += utf8.RuneLen(r)
-				i++
+				wid += size
 			} else {
 				break
 			}
